@@ -128,3 +128,21 @@ var round14Explanations = map[string]string{
 	"C19": " (R15) the path written in the directory-mode loops derives from a package function that looks up and adds to a map allocated outside the loop.",
 	"C20": " (R9) redactRawJSON returns its parameter only under a decode error or on the false edge of a package function that reads the parameter with json.Decoder.Token.",
 }
+
+var round15Explanations = map[string]string{
+	"C01": " (R22) as C07.B2k. (R23) as C02.R17.",
+	"C02": " (R22) a plain DestroyStream call dominates the receiver's OnReceive in clientStreamReceiverWrapper.OnReceive. (R18) as C09.R12.",
+	"C03": " (R19) the sends of body and trailers in downStream.receive are guarded, as far as the message is concerned, by the nil test of their buffer only. (R20) as C10.END.",
+	"C06": " (R10) every function storing EdfLoadBalancer.scheduler is called by newEdfLoadBalancer only, before its returns.",
+	"C07": " (B2k) no IoBuffer field of a decoded frame holds a Clone() of the decoder's buffer parameter.",
+	"C08": " (B14) no nil return of Framer.checkFrameOrder is reachable without the header block established closed or the frame established CONTINUATION.",
+	"C09": " (R12) on every path of clientStreamConnection.serve that keeps the connection both br.Buffered() == 0 and unread <= 0 are established (branch facts, also through sound helpers; the resetConn flag's values are tracked). (R13) as C02.R22.",
+	"C10": " (END) downStream.receive returns the constant End only where no guard pins the phase to another constant.",
+	"C11": " (O22) ParseListenerConfig stores nil into elements of its inherited-listener parameters (three sites) and never appends onto them.",
+	"C12": " (R18) in DumpConfig an atomic lowering of the dump mark dominates transferConfig and none is reachable behind it.",
+	"C13": " (R25) each pool's TLSHashValue returns a receiver field no method of the pool stores.",
+	"C15": " (R18) as C12.R10.",
+	"C17": " (R20) as C03.R8.",
+	"C18": " (W19) inside a loop with awaitFlowControl the END_STREAM argument of writeData is constant false or derives from the grant.",
+	"C19": " (R16) as C12.R18.",
+}
